@@ -94,6 +94,25 @@ def rule_channel(ctx):
     names, tab = W.table({"modify": mods})
     ok = tab.get((True,)) == {"modify"} and tab.get((False,)) == set()
     ctx.ob(R, "filtered values dropped", ok, "the buffer is touched only when the filter accepted the value" if ok else "buffer modification reachable: %s" % {k: sorted(v) for k, v in tab.items()}, send.loc())
+    # who mutates the buffer, and how: only order-preserving removal (retain / remove by position), append at the back and
+    # pop at the front - then the retained messages leave in arrival order. In-place replacement (iter_mut, get_mut,
+    # IndexMut), insertion elsewhere than the back, swaps and rotations break FIFO among the retained messages.
+    muts = set()
+    for g in ctx.F.fns:
+        if g.in_testonly() or not g.qname.startswith(MPSC):
+            continue
+        for c in ctx.T(g).calls():
+            tys = [g.ty(i).s for i in c["t"]["f"].get("ga", [])]
+            if c["q"].startswith("std::collections::VecDeque::") or c["q"].startswith("std::collections::vec_deque::"):
+                m = c["q"].rsplit("::", 1)[1]
+                if m not in ("is_empty", "len", "new", "iter", "front", "back", "get", "contains", "with_capacity", "capacity"):
+                    muts.add(m)
+            elif c["q"] == "std::ops::IndexMut::index_mut" and any(t.startswith("std::collections::VecDeque<") for t in tys):
+                muts.add("index_mut")
+    allowed = {"retain", "push_back", "pop_front", "remove"}
+    okm = muts <= allowed and {"push_back", "pop_front"} <= muts
+    ctx.ob(R, "buffer mutators", okm, "VecDeque mutators used in prunable_mpsc: %s (FIFO among retained)" % sorted(muts) if okm else
+           "the pending queue is mutated by %s (allowed: order-preserving removal, push_back, pop_front): retained messages are no longer delivered in arrival order" % sorted(muts - allowed or muts))
     kids = [g for g in ctx.F.fns if g.parent is send]
     outer = [g for g in kids if any(c["q"].endswith("VecDeque::retain") for c in ctx.T(g).calls())]
     if not outer:
@@ -168,18 +187,6 @@ def rule_channel(ctx):
     exp = {("Keep",): {"retain_true"}, ("DiscardOld",): {"retain_false"}, ("DiscardNew",): {"retain_true", "flag:=superseded"}}
     for k, e in exp.items():
         ctx.ob(R, "retain on %s" % k[0], tab.get(k) == e, "-> %s" % sorted(tab.get(k, [])) if tab.get(k) == e else "on %s the retain predicate does %s (specified %s)" % (k[0], sorted(tab.get(k, [])), sorted(e)), p.loc())
-    # who mutates the buffer
-    muts = set()
-    for g in ctx.F.fns:
-        if g.in_testonly() or not g.qname.startswith(MPSC):
-            continue
-        for c in ctx.T(g).calls():
-            if c["q"].startswith("std::collections::VecDeque::"):
-                m = c["q"].rsplit("::", 1)[1]
-                if m not in ("is_empty", "len", "new", "iter", "front", "back", "get", "contains"):
-                    muts.add(m)
-    ctx.ob(R, "buffer mutators", muts == {"retain", "push_back", "pop_front"}, "VecDeque mutators used in prunable_mpsc: %s (FIFO among retained)" % sorted(muts) if muts == {"retain", "push_back", "pop_front"} else
-           "unexpected buffer mutators in prunable_mpsc: %s" % sorted(muts))
 
 
 def cache_rule(ctx, R, handler, views_cache, qcs_cache, process):
